@@ -64,6 +64,11 @@ pub mod mm {
     /// Returns the approximate reciprocal of the square root of `x`.
     #[inline]
     pub fn recip_sqrt(x: f32) -> f32 {
+        // micromath's estimate reads the exponent field, which a subnormal
+        // number does not have: scale it into the normal range first
+        if 0.0 < x && x < f32::MIN_POSITIVE {
+            return recip_sqrt(x * 16_777_216.0) * 4096.0;
+        }
         let y = mm::invsqrt(x);
         // A round of Newton's method
         y * (1.5 - 0.5 * x * y * y)
@@ -137,6 +142,12 @@ pub mod fallback {
     /// Returns the approximate reciprocal of the square root of `x`.
     #[inline]
     pub fn recip_sqrt(x: f32) -> f32 {
+        // The bit trick below reads the exponent field, which a subnormal
+        // number does not have: scale it into the normal range first
+        // (by 2^24; the result then scales by 2^12, both exactly)
+        if 0.0 < x && x < f32::MIN_POSITIVE {
+            return recip_sqrt(x * 16_777_216.0) * 4096.0;
+        }
         // https://en.wikipedia.org/wiki/Fast_inverse_square_root
         let y = f32::from_bits(0x5f37_5a86 - (x.to_bits() >> 1));
         // A round of Newton's method
